@@ -8,6 +8,7 @@ whose in-order leaves are exactly the Spec's association list `m`.
 -/
 namespace AlgoVerif.C06
 variable {V : Type}
+open BitString (xbit Small)
 
 open PT
 
@@ -59,7 +60,7 @@ theorem rep_upd {t : Patricia V} (key : Key) (v : V) (T : PT V) :
       · simp only [h, if_true, hn, Option.map_some]; exact ⟨_, rfl, rfl, rfl, rfl⟩
       · simp only [h, if_false]; exact ⟨n, hn, rfl, rfl, rfl⟩
     simp only [descend, upd]
-    cases hbit : kbit key (bp - 1)
+    cases hbit : xbit key (bp - 1)
     · simp only [Bool.false_eq_true, if_false]
       obtain ⟨n', hn', h1, h2, h3⟩ := hnode (descend l key).1
       refine ⟨hp, n', hn', by omega, hb, ?_, ?_⟩
@@ -92,6 +93,8 @@ structure PInvS (t : Patricia V) (r : Nat) (rn : PNode V) (T : PT V) (m : Spec.M
   nodupL : (leafIdx T).Nodup
   rootNotInner : r ∉ inners T
   topLeaf : ∀ i k v, T = .leaf i k v → i = r
+  selfBelow : SelfBelow T
+  leafPerm : (leafIdx T).Perm (r :: inners T)
 
 def PInv (t : Patricia V) (m : Spec.Map V) : Prop :=
   (t.root = none ∧ m = [] ∧ t.size = 0) ∨ ∃ r rn T, PInvS t r rn T m
@@ -291,7 +294,7 @@ theorem upd_leaf_inv (T : PT V) (key : Key) (v : V) {i : Nat} {k : Key} {v' : V}
   | leaf j k' v0 => simp only [upd, PT.leaf.injEq] at h; exact ⟨v0, by rw [h.1, h.2.1]⟩
   | inner j bp l r => simp only [upd] at h; split at h <;> cases h
 
-theorem put_empty (t : Patricia V) (hr : t.root = none) (key : Key) (v : V) :
+theorem put_empty (t : Patricia V) (hr : t.root = none) (key : Key) (hsk : Small key) (v : V) :
     ∃ t', t.put key v = .ok t' ∧ PInv t' (Map.put [] key v) := by
   refine ⟨Patricia.mk 1 (some t.nodes.size) (t.nodes.push (PNode.mk 0 key v (some t.nodes.size) none)),
     by simp [Patricia.put, hr], .inr ⟨t.nodes.size,
@@ -301,13 +304,15 @@ theorem put_empty (t : Patricia V) (hr : t.root = none) (key : Key) (v : V) :
   exact {
     hroot := rfl, hrn := hnode, hbp := rfl, hright := rfl,
     rep := ⟨rfl, _, hnode, Nat.le_refl _, rfl, rfl⟩,
-    crit := trivial, ents := rfl, size := rfl,
+    crit := hsk, ents := rfl, size := rfl,
     nodupI := by simp [inners], nodupL := by simp [leafIdx],
     rootNotInner := by simp [inners],
-    topLeaf := by intro i k v' h; cases h; rfl }
+    topLeaf := by intro i k v' h; cases h; rfl,
+    selfBelow := trivial,
+    leafPerm := by simp [leafIdx, inners] }
 
 theorem put_root {t : Patricia V} {r : Nat} {rn : PNode V} {T : PT V} {m : Spec.Map V} (h : PInvS t r rn T m)
-    (key : Key) (v : V) (hnc : ∀ e ∈ m, e.1 ≠ key → BitString.diffPos e.1 key ≠ 0) :
+    (key : Key) (hsk : Small key) (v : V) :
     ∃ t', t.put key v = .ok t' ∧ PInv t' (Map.put m key v) := by
   obtain ⟨n, hn, hk, hv⟩ := h.rep.descend_node key
   have hmem := descend_mem T key
@@ -348,7 +353,9 @@ theorem put_root {t : Patricia V} {r : Nat} {rn : PNode V} {T : PT V} {m : Spec.
       topLeaf := by
         intro i k v' hT
         obtain ⟨v0, hT0⟩ := upd_leaf_inv T key v hT
-        exact h.topLeaf i k v0 hT0 }
+        exact h.topLeaf i k v0 hT0,
+      selfBelow := selfBelow_upd key v h.selfBelow,
+      leafPerm := by rw [leafIdx_upd, inners_upd]; exact h.leafPerm }
   · -- a new key
     have he' : n.key.equal key = false := by simpa using he
     have hkne : (descend T key).2.1 ≠ key := by
@@ -356,9 +363,10 @@ theorem put_root {t : Patricia V} {r : Nat} {rn : PNode V} {T : PT V} {m : Spec.
     have habsent : key ∉ keys T := fun hkm => hkne (descend_of_mem h.crit hkm)
     have hd0 : BitString.diffPos n.key key ≠ 0 := by
       rw [hk]
-      exact hnc _ (h.ents ▸ hmem) hkne
+      exact fun h0 => hkne ((BitString.diffPos_eq_zero_iff _ _).mp h0)
+    have hsn : Small n.key := by rw [hk]; exact h.crit.small _ (descend_key_mem T key)
     obtain ⟨p, hp⟩ : ∃ p, BitString.diffPos n.key key = p + 1 := ⟨BitString.diffPos n.key key - 1, by omega⟩
-    obtain ⟨hdiff, hsame⟩ := BitString.diffPos_succ _ _ _ hp
+    obtain ⟨hdiff, hsame⟩ := BitString.diffPos_succ _ _ hsn hsk _ hp
     rw [hk] at hdiff hsame
     have hfuel : above t 0 < t.fuel := by have := above_le_size t 0; unfold fuel; omega
     have hloop := putLoop_rep key (p + 1) T 0 rn.left r rn t.fuel h.rep h.hrn h.hbp hfuel
@@ -380,7 +388,7 @@ theorem put_root {t : Patricia V} {r : Nat} {rn : PNode V} {T : PT V} {m : Spec.
     have hsz : r < t.nodes.size := lt_size_of_getElem? h.hrn
     have hfresh : ∀ i, i ∈ leafIdx T ++ inners T → i ≠ t.nodes.size := fun i hi => by
       have := h.rep.valid i hi; omega
-    have hcrit := crit_ins h.crit key v (p + 1) t.nodes.size (by omega)
+    have hcrit := crit_ins h.crit key hsk v (p + 1) t.nodes.size (by omega)
       (by simpa using fun hh => hdiff hh.symm) (by simpa using fun j hj => (hsame j hj).symm)
     have hents : ents (ins T key v (p + 1) t.nodes.size) = Map.put m key v := by
       apply Sorted.ext (PT.sorted_ents hcrit) (Map.put_sorted h.sorted _ _)
@@ -405,7 +413,7 @@ theorem put_root {t : Patricia V} {r : Nat} {rn : PNode V} {T : PT V} {m : Spec.
       show Outcome.ok _ = Outcome.ok _
       congr 1
       simp only [t', nw, linked, newNode, Nat.add_sub_cancel]
-      cases hb : kbit key p <;> simp <;> split <;> simp [setLeft, setRight, h.hroot]
+      cases hb : xbit key p <;> simp <;> split <;> simp [setLeft, setRight, h.hroot]
     · exact {
         hroot := hroot', hrn := hrn',
         hbp := by rw [hbp']; exact h.hbp,
@@ -427,7 +435,12 @@ theorem put_root {t : Patricia V} {r : Nat} {rn : PNode V} {T : PT V} {m : Spec.
           · exact h.rootNotInner hh,
         topLeaf := by
           intro i k v' hT
-          exact absurd hT (ins_not_leaf T key v _ _ i k v') }
+          exact absurd hT (ins_not_leaf T key v _ _ i k v'),
+        selfBelow := selfBelow_ins key v _ _ h.selfBelow,
+        leafPerm :=
+          (leafIdx_ins_perm T key v _ _).trans
+            (((List.Perm.cons _ h.leafPerm).trans (List.Perm.swap _ _ _)).trans
+              (List.Perm.cons _ (inners_ins_perm T key v _ _).symm)) }
 
 /-! ## the queries -/
 
@@ -535,21 +548,21 @@ theorem size_sim (h : PInv t m) : t.size = m.size := by
   · simp [hs, Map.size]
   · exact h.size
 
-theorem put_sim (h : PInv t m) (key : Key) (v : V) (hnc : ∀ e ∈ m, e.1 ≠ key → BitString.diffPos e.1 key ≠ 0) :
+theorem put_sim (h : PInv t m) (key : Key) (hsk : Small key) (v : V) :
     ∃ t', t.put key v = .ok t' ∧ PInv t' (Map.put m key v) := by
   rcases h with ⟨hr, rfl, _⟩ | ⟨r, rn, T, h⟩
-  · exact put_empty t hr key v
-  · exact put_root h key v hnc
+  · exact put_empty t hr key hsk v
+  · exact put_root h key hsk v
 
 end
 
 /-- one step of a history in scope -/
 theorem step_sim {t : Patricia V} {m : Map V} (h : PInv t m) (op : Op V) (hs : op.patriciaScope = true)
-    (hnc : ∀ k v, op = .put k v → ∀ e ∈ m, e.1 ≠ k → BitString.diffPos e.1 k ≠ 0) :
+    (hnc : ∀ k v, op = .put k v → Small k) :
     ∃ t', t.step op = .ok (t', (Map.step m op).2) ∧ PInv t' (Map.step m op).1 := by
   cases op with
   | put k v =>
-    obtain ⟨t', h1, h2⟩ := put_sim h k v (hnc k v rfl)
+    obtain ⟨t', h1, h2⟩ := put_sim h k (hnc k v rfl) v
     exact ⟨t', by simp [Patricia.step, h1, Outcome.map, Map.step], h2⟩
   | get k => exact ⟨t, by simp [Patricia.step, get_sim h, Outcome.map, Map.step], h⟩
   | delete k => simp [Op.patriciaScope] at hs
@@ -570,20 +583,17 @@ theorem step_sim {t : Patricia V} {m : Map V} (h : PInv t m) (op : Op V) (hs : o
   | longestPrefixOf s => simp [Op.patriciaScope] at hs
   | «match» pat => simp [Op.patriciaScope] at hs
 
-theorem run_sim {t : Patricia V} {m : Map V} (h : PInv t m) (ops : List (Op V)) (hh : PatriciaHistory m ops = true) :
+theorem run_sim {t : Patricia V} {m : Map V} (h : PInv t m) (ops : List (Op V)) (hh : PatriciaHistory ops = true) :
     Patricia.run t ops = (Map.run m ops).map Outcome.ok := by
   induction ops generalizing t m with
   | nil => rfl
   | cons op ops ih =>
     simp only [PatriciaHistory, Bool.and_eq_true] at hh
     obtain ⟨⟨hs, hnc⟩, hrest⟩ := hh
-    have hnc' : ∀ k v, op = .put k v → ∀ e ∈ m, e.1 ≠ k → BitString.diffPos e.1 k ≠ 0 := by
-      intro k v hop e he hne
+    have hnc' : ∀ k v, op = .put k v → Small k := by
+      intro k v hop
       subst hop
-      simp only [Op.noClash, List.all_eq_true, Bool.or_eq_true, beq_iff_eq, bne_iff_ne, ne_eq] at hnc
-      rcases hnc e he with h1 | h1
-      · exact absurd h1 hne
-      · exact h1
+      simpa [Op.smallKeys, Small] using hnc
     obtain ⟨t', h1, h2⟩ := step_sim h op hs hnc'
     simp only [Patricia.run, runTrace, h1, Map.run, runSpec, List.map_cons]
     congr 1
